@@ -195,6 +195,7 @@ func Build(l shardfix.Layout, d Data) (*World, error) {
 	}
 	w := &World{F: f, Phys: map[string]*sqlmodel.Table{}, Union: sqlmodel.NewMapCatalog(shardfix.DB)}
 	ut := sqlmodel.NewTable(shardfix.DB, shardfix.Table, TCols(l))
+	ut.UK = []int{0, 5} // unique key (k, id): a unique key of a sharded table contains the sharding column
 	w.Union.Add(shardfix.DB, shardfix.Table, ut)
 	var utc *sqlmodel.Table
 	if l.ChildKey != "" {
@@ -202,7 +203,9 @@ func Build(l shardfix.Layout, d Data) (*World, error) {
 		w.Union.Add(shardfix.DB, shardfix.Child, utc)
 	}
 	for _, tl := range f.Tables {
-		w.Phys[physKey(tl.Slice, tl.DB, tl.Name)] = sqlmodel.NewTable(tl.DB, tl.Name, TCols(l))
+		pt := sqlmodel.NewTable(tl.DB, tl.Name, TCols(l))
+		pt.UK = []int{0, 5}
+		w.Phys[physKey(tl.Slice, tl.DB, tl.Name)] = pt
 		if l.ChildKey != "" {
 			w.Phys[physKey(tl.Slice, tl.DB, tl.Child)] = sqlmodel.NewTable(tl.DB, tl.Child, TCCols(l))
 		}
